@@ -110,30 +110,44 @@ def processAuto (m : MachineDesc) (act : ActionId → Ev → P → A → ActOut 
       | some s' => ⟨true, o.outEvent, o.data, .ok, s', o.payload⟩
       | none => ⟨true, o.outEvent, o.data, .err, cur, o.payload⟩
 
+/-- `if data != nil { resp.Data = data }` -/
+def pickData {R : Type} (new old : Option R) : Option R :=
+  match new with
+  | some d => some d
+  | none => old
+
+/-- the main callback of `do` (when the event has none, `outEvent`/`resp.Data` keep what the
+before-auto step left) -/
+def mainCallback (m : MachineDesc) (act : ActionId → Ev → P → A → ActOut P R)
+    (tr : Tr) (b : AutoOut P R) (a : A) : ActOut P R :=
+  match callbackOf m tr.event with
+  | some aid => act aid tr.event b.payload a
+  | none => { outEvent := b.outEvent, data := (if b.executed then b.data else none), res := .ok, payload := b.payload }
+
+/-- second half of `do`: `SetState`, after-auto event, final response -/
+def doTrAfter (m : MachineDesc) (act : ActionId → Ev → P → A → ActOut P R)
+    (tr : Tr) (b : AutoOut P R) (o : ActOut P R) (a : A) : DoOut P R :=
+  let respState0 : Option St := if b.executed then some b.state else none
+  match setState m b.state (o.outEvent.getD tr.event) with
+  | none => ⟨some (respState0, o.data), .err, b.state, o.payload⟩
+  | some s1 =>
+    let a2 := processAuto m act s1 o.payload 2 a
+    let respData2 : Option R :=
+      if a2.executed then pickData a2.data o.data else o.data
+    ⟨some (some a2.state, respData2), a2.res, a2.state, a2.payload⟩
+
 /-- `do` -/
 def doTr (m : MachineDesc) (act : ActionId → Ev → P → A → ActOut P R)
     (cur : St) (p : P) (tr : Tr) (a : A) : DoOut P R :=
   let b := processAuto m act cur p 1 a
   let respState0 : Option St := if b.executed then some b.state else none
-  let respData0 : Option R := if b.executed then b.data else none
   if b.executed && b.res != .ok then
-    ⟨some (respState0, respData0), b.res, b.state, b.payload⟩
+    ⟨some (respState0, if b.executed then b.data else none), b.res, b.state, b.payload⟩
   else
-    -- main callback
-    let (outEv, respData1, res1, p1) : Option Ev × Option R × Res × P :=
-      match callbackOf m tr.event with
-      | some aid => let o := act aid tr.event b.payload a; (o.outEvent, o.data, o.res, o.payload)
-      | none => (b.outEvent, respData0, .ok, b.payload)
-    if res1 != .ok then
-      ⟨some (respState0, respData1), res1, b.state, p1⟩
-    else
-      match setState m b.state (outEv.getD tr.event) with
-      | none => ⟨some (respState0, respData1), .err, b.state, p1⟩
-      | some s1 =>
-        let a2 := processAuto m act s1 p1 2 a
-        let respData2 : Option R :=
-          if a2.executed then (match a2.data with | some d => some d | none => respData1) else respData1
-        ⟨some (some a2.state, respData2), a2.res, a2.state, a2.payload⟩
+    let o := mainCallback m act tr b a
+    if o.res != .ok then
+      ⟨some (respState0, o.data), o.res, b.state, o.payload⟩
+    else doTrAfter m act tr b o a
 
 /-- `FSM.Do` -/
 def doEvent (m : MachineDesc) (act : ActionId → Ev → P → A → ActOut P R)
